@@ -1383,6 +1383,7 @@ func (m *Manager) AddPoolTransactions(txns []types.Transaction) (known bool, err
 		return known, err
 	}
 
+	nOld := len(m.txpool.txns)
 	for _, txn := range txns {
 		txid := txn.ID()
 		if _, ok := m.txpool.indices[txid]; ok {
@@ -1390,6 +1391,13 @@ func (m *Manager) AddPoolTransactions(txns []types.Transaction) (known bool, err
 		}
 		ts := m.store.SupplementTipTransaction(txn)
 		if err := consensus.ValidateTransaction(m.txpool.ms, txn, ts); err != nil {
+			// the entire set is rejected: remove the transactions added so far
+			for _, added := range m.txpool.txns[nOld:] {
+				delete(m.txpool.indices, added.ID())
+				m.txpool.weight -= m.tipState.TransactionWeight(added)
+			}
+			clear(m.txpool.txns[nOld:])
+			m.txpool.txns = m.txpool.txns[:nOld]
 			m.txpool.ms = nil // force revalidation next time the pool is queried
 			return false, fmt.Errorf("transaction %v conflicts with pool: %w", txid, err)
 		}
@@ -1463,12 +1471,20 @@ func (m *Manager) AddV2PoolTransactions(basis types.ChainIndex, txns []types.V2T
 		return known, err
 	}
 
+	nOld := len(m.txpool.v2txns)
 	for _, txn := range txns {
 		txid := txn.ID()
 		if _, ok := m.txpool.indices[txid]; ok {
 			continue // skip transactions already in the pool
 		}
 		if err := consensus.ValidateV2Transaction(m.txpool.ms, txn); err != nil {
+			// the entire set is rejected: remove the transactions added so far
+			for _, added := range m.txpool.v2txns[nOld:] {
+				delete(m.txpool.indices, added.ID())
+				m.txpool.weight -= m.tipState.V2TransactionWeight(added)
+			}
+			clear(m.txpool.v2txns[nOld:])
+			m.txpool.v2txns = m.txpool.v2txns[:nOld]
 			m.txpool.ms = nil // force revalidation next time the pool is queried
 			return false, fmt.Errorf("transaction %v conflicts with pool: %w", txid, err)
 		}
